@@ -226,7 +226,37 @@ func c01Run(c *Ctx, cs c01Case) {
 	k.tr.TakeWrites()
 	ps := 512
 	nextNrBy := map[uint16]int{}
+	abort := func(ch *tds.Channel) bool {
+		if err := ch.QueuePackage(context.Background(), &tds.LanguagePackage{Cmd: "given up"}); err != nil {
+			r.Inconclusive("QueuePackage of the aborted message failed: %v", err)
+			return false
+		}
+		cctx, ccancel := context.WithCancel(context.Background())
+		ccancel()
+		if err := ch.SendRemainingPackets(cctx); err == nil {
+			r.Count("aborted_flush_returned_nil", 1)
+		}
+		if w := k.tr.TakeWrites(); len(w) != 0 {
+			r.Count("aborted_flush_wrote_packets", int64(len(w)))
+		}
+		r.Count("aborted_messages", 1)
+		return true
+	}
 	for mi, m := range cs.Messages {
+		abortedEarly := false
+		if m.AbortedBefore && m.PacketSize != 0 && m.PacketSize != ps && mi%2 == 1 {
+			// the message given up lies BEFORE the packet size announcement:
+			// what it left queued was laid out for the old size
+			ach := ch
+			if cs.Logical && m.OnChannel0 {
+				ach = k.ch
+			}
+			if !abort(ach) {
+				return
+			}
+			abortedEarly = true
+			r.Count("aborted_messages_before_a_size_change", 1)
+		}
 		if m.PacketSize != 0 && m.PacketSize != ps {
 			// the server announces a new packet size between two messages
 			resp := append(srv.EnvChange(srv.EnvMember{Type: 4, New: strconv.Itoa(m.PacketSize), Old: strconv.Itoa(ps)}), srv.Done(srv.TokDone, 0, 0, 0)...)
@@ -254,20 +284,10 @@ func c01Run(c *Ctx, cs c01Case) {
 		if cs.Logical && m.OnChannel0 {
 			ch, chanID = k.ch, 0
 		}
-		if m.AbortedBefore {
-			if err := ch.QueuePackage(context.Background(), &tds.LanguagePackage{Cmd: "given up"}); err != nil {
-				r.Inconclusive("QueuePackage of the aborted message failed: %v", err)
+		if m.AbortedBefore && !abortedEarly {
+			if !abort(ch) {
 				return
 			}
-			cctx, ccancel := context.WithCancel(context.Background())
-			ccancel()
-			if err := ch.SendRemainingPackets(cctx); err == nil {
-				r.Count("aborted_flush_returned_nil", 1)
-			}
-			if w := k.tr.TakeWrites(); len(w) != 0 {
-				r.Count("aborted_flush_wrote_packets", int64(len(w)))
-			}
-			r.Count("aborted_messages", 1)
 		}
 		ch.CurrentHeaderType = tds.PacketHeaderType(m.Type)
 		ctx := context.Background()
@@ -393,6 +413,21 @@ func c01Run(c *Ctx, cs c01Case) {
 			}
 			fail(kind, fmt.Sprintf("packet bodies concatenate to %d bytes, packages encode to %d", len(got), len(want)))
 			return
+		}
+		// a flush with nothing queued (a redundant SendRemainingPackets, the
+		// second of two senders' flushes) sends nothing: a packet now would
+		// be an end-of-message on a packet that ends no message
+		if mi%3 == 2 {
+			var ferr error
+			if pi := rt.Catch(func() { ferr = ch.SendRemainingPackets(ctx) }); pi != nil {
+				fail("panic/"+pi.Frame, "flush with nothing queued panicked: "+pi.Value)
+				return
+			}
+			r.Count("flushes_with_nothing_queued", 1)
+			if w := k.tr.TakeWrites(); len(w) != 0 {
+				fail("packet-on-empty-flush", fmt.Sprintf("SendRemainingPackets with nothing queued (returned %v) wrote %d packet(s): % x", ferr, len(w), w[0].Data))
+				return
+			}
 		}
 	}
 }
